@@ -116,3 +116,30 @@ pub open spec fn binary_rule_ok(op: BinaryOp, l: Expr, r: Expr, ty: Ty, rec: Set
         ty is TBool && (rec.contains(Constraint::TypeEqual(expr_ty(l), expr_ty(r))) || rec.contains(Constraint::TypeEqual(expr_ty(r), expr_ty(l))))
     }
 }
+
+// ---- match (U-INFERCTRL) ----
+#[verifier::external_body] #[derive(Clone, Copy)] pub struct PatId { _p: u32 }
+pub struct HirArm { pub pat: PatId, pub body: ExprId }                     // hir::Arm
+// r is an elaboration of pattern p checked against a scrutinee of type t (Typer::check_pat: U-PATLIT / U-STRUCTPAT prove what the cases do)
+pub uninterp spec fn pat_checked(p: PatId, t: Ty, r: Pat) -> bool;
+impl LocalTypeEnv {
+    // the innermost scope was opened and nothing has been bound in it yet
+    pub uninterp spec fn top_fresh(&self) -> bool;
+    #[verifier::external_body] pub fn push_scope(&mut self) ensures final(self).top_fresh() { unimplemented!() }
+    #[verifier::external_body] pub fn pop_scope(&mut self, diagnostics: &mut Diagnostics) { unimplemented!() }
+}
+impl Typer {
+    // C05: an arm's pattern binds its variables in a scope opened for that arm alone
+    #[verifier::external_body]
+    pub fn check_pat(&mut self, genv: &PackageTypeEnv, local_env: &mut LocalTypeEnv, diagnostics: &mut Diagnostics, pat: PatId, ty: &Ty) -> (r: Pat)
+        requires old(local_env).top_fresh(),
+        ensures pat_checked(pat, *ty, r), old(self).recorded().subset_of(final(self).recorded()),
+    { unimplemented!() }
+}
+pub open spec fn match_rule_ok(scrut: ExprId, arms: Seq<HirArm>, r: Expr, rec: Set<Constraint>) -> bool {
+    r matches Expr::EMatch { expr: x, arms: a, ty, astptr: _ } && inferred(scrut, *x) && a@.len() == arms.len()
+    && forall|i: int| 0 <= i < arms.len() ==>
+          // every arm's pattern is checked against the SCRUTINEE's type, every arm's body has the type of the match
+          pat_checked(arms[i].pat, expr_ty(*x), (#[trigger] a@[i]).pat) && inferred(arms[i].body, a@[i].body) && rec.contains(Constraint::TypeEqual(expr_ty(a@[i].body), ty))
+}
+pub open spec fn ty_of_expr(e: Expr) -> Ty { expr_ty(e) }
